@@ -445,8 +445,10 @@ let ep_op toks =
       let s = server_new { svc_max_total = n mt; svc_max_active = n ma; svc_enable_errors = (er = "1"); svc_ec = ep_config cfgl } (n vnow) !nonce_seed in
       ep_server := Some s; Printf.printf "st %s\n" (server_dump s)
   | ["peer"; k] -> ep_peers.(int_of_string k) <- Some { mailbox = []; pclient = None }; Printf.printf "new peer %s\n" k
-  | ("psend" | "psendraw" | "psendc") :: k :: rest ->
-      let bytes = if List.hd toks = "psendraw" then bytes_of_hex (List.hd rest) else write_frame (parse_frame rest) in
+  | ("psend" | "psendraw" | "psendfix" | "psendc") :: k :: rest ->
+      let bytes = if List.hd toks = "psendraw" then bytes_of_hex (List.hd rest)
+                  else if List.hd toks = "psendfix" then with_crc (bytes_of_hex (List.hd rest))
+                  else write_frame (parse_frame rest) in
       let k = int_of_string k in
       if List.hd toks = "psendc" then
         (match ep_peers.(k) with
